@@ -57,8 +57,12 @@ func Calls(fn *ssa.Function, calleeGlob string) []ssa.CallInstruction {
 			}
 		}
 	}
-	if len(newHelpers) > 0 && fn.Parent() == nil {
-		for _, h := range helpersOf(fn) {
+	if len(newHelpers) > 0 {
+		hs := helpersOf(fn)
+		if fn.Parent() != nil {
+			hs = helpersCalledFrom(fn) // a closure: the helpers split out of its own body
+		}
+		for _, h := range hs {
 			for _, b := range h.Blocks {
 				for _, in := range b.Instrs {
 					if c, ok := in.(ssa.CallInstruction); ok && Match(calleeGlob, calleeName(c.Common())) {
@@ -459,11 +463,15 @@ func Instrs(fn *ssa.Function, f func(ssa.Instruction)) {
 	// the instructions of transparent helpers belong to their owner (see helpers.go)
 	if len(newHelpers) > 0 && fn.Parent() == nil && newHelpers[fn] == nil {
 		for _, h := range helpersOf(fn) {
-			for _, b := range h.Blocks {
-				for _, in := range b.Instrs {
-					f(in)
+			// a helper shared by several functions is visited as part of THIS one: its parameters
+			// render as the arguments of the call sites in fn
+			InOwner(fn, func() {
+				for _, b := range h.Blocks {
+					for _, in := range b.Instrs {
+						f(in)
+					}
 				}
-			}
+			})
 		}
 	}
 }
@@ -530,6 +538,41 @@ func expandHelperReturns(rets []Ret, depth int) []Ret {
 		}
 		h := call.Call.StaticCallee()
 		fs := FactsAt(rt.Instr)
+		// The expansion replaces the caller's return by the helper's returns and with it the caller's
+		// facts by the helper's. It is meant for `return h(..)` and `if err := h(..); err != nil { return err }`:
+		// when the caller decided anything else between the call and this return (a type test on the
+		// result, a flag), the caller's own return is the informative one and stays.
+		{
+			atCall := map[string]bool{}
+			for _, f := range FactsAt(call) {
+				atCall[f.Atom] = true
+			}
+			nilness := map[string]bool{}
+			for _, v := range rt.Results {
+				if c, _ := helperCallOf(v); c != nil {
+					nilness["eq("+Render(v)+",nil)"] = true
+					nilness["!eq("+Render(v)+",nil)"] = true
+				}
+			}
+			if rs := call.Referrers(); rs != nil {
+				for _, u := range *rs {
+					if ex, isEx := u.(*ssa.Extract); isEx {
+						nilness["eq("+Render(ex)+",nil)"] = true
+						nilness["!eq("+Render(ex)+",nil)"] = true
+					}
+				}
+			}
+			own := false
+			for _, f := range fs {
+				if !atCall[f.Atom] && !nilness[f.Atom] {
+					own = true
+				}
+			}
+			if own {
+				out = append(out, rt)
+				continue
+			}
+		}
 		sub := expandHelperReturns(returnsOwn(h), depth+1)
 		n := 0
 		for _, hr := range sub {
